@@ -38,6 +38,7 @@ def one_case(ctx, drv, rng, spec, stats):
         at_data = dict(spec, pos=spec["cond_pos"], mesh_type="unstructured")
         if drv is not None:
             KC.correspond_case(ctx, drv, at_data, stats)
+            KC.correspond_case(ctx, drv, spec, stats)      # and at the spec's own (random) targets
         KC.probe_exact_at_data(ctx, spec, stats)
         ctx.count(None, hist=dict(probe="exact_at_data"))
         KC.probe_var_bounds(ctx, spec, stats)
